@@ -236,8 +236,8 @@ def close(a, b, tol):
 # ----------------------------------------------------------------------------
 # generators
 
-def gen_trans(rng):
-    name = rng.choice(TRANSFORMS)
+def gen_trans(rng, name=None):
+    name = rng.choice(TRANSFORMS) if name is None else name
     if name == "Identity":
         return (name, [])
     if name == "Log":
@@ -249,10 +249,11 @@ def gen_trans(rng):
     return (name, [rng.choice([-1.0, 0.0, 2.0]), rng.choice([0.05, 1.0, 3.0])])
 
 
-def gen_series(rng, maxlen):
+def gen_series(rng, maxlen, n=None):
     """(obs, sim, label): mostly flow-like positive data, some signed data"""
-    n = rng.choice([2, 2, 3, 5, 7, 8, 9, 15, 16, 17, 31, 64, 127, 128, 129, 130, 136, 137,
-                    rng.randint(2, maxlen), rng.randint(2, maxlen)])
+    if n is None:
+        n = rng.choice([2, 2, 3, 5, 7, 8, 9, 15, 16, 17, 31, 64, 127, 128, 129, 130, 136, 137,
+                        rng.randint(2, maxlen), rng.randint(2, maxlen)])
     n = min(n, maxlen)
     shape = rng.random()
     scale = rng.choice([1.0, 1.0, 0.05, 30.0, 1e4])
@@ -311,6 +312,183 @@ def gen_special(rng):
     n = rng.choice([140, 300])   # tiny mean relative to spread, long
     obs = [rng.gauss(0, 1) for _ in range(n)]
     return obs, [v + rng.gauss(0, 0.1) for v in obs], "centred"
+
+
+# ----------------------------------------------------------------------------
+# Stored representations of the inputs.  The property speaks of the VALUES of the series / of
+# the counts of the table; the same values are handed over in the containers, memory layouts
+# and (for integer data) storage types a caller may hold them in.  The continuous series stay
+# float64 (the property's quantifier), the categories / counts stay integers.
+
+INDEX_KINDS = ["range", "shuffled", "dates", "dates-tz", "text", "dup", "offset"]
+
+
+def make_index(rng, kind, n):
+    import pandas as pd
+    if kind == "range":
+        return pd.RangeIndex(n)
+    if kind == "shuffled":
+        l = list(range(n))
+        rng.shuffle(l)
+        return pd.Index(l)
+    if kind == "dates":
+        return pd.date_range(rng.choice(["1990-01-01", "2015-06-30", "2031-12-31"]), periods=n,
+                             freq=rng.choice(["D", "h", "MS"]))
+    if kind == "dates-tz":
+        return pd.date_range("2004-03-27", periods=n, freq="h", tz=rng.choice(["Australia/Sydney", "UTC"]))
+    if kind == "text":
+        l = [f"s{i:04d}" for i in range(n)]
+        rng.shuffle(l)
+        return pd.Index(l)
+    if kind == "dup":
+        return pd.Index([rng.randrange(max(1, n // 3)) for _ in range(n)])
+    return pd.RangeIndex(n, 2 * n)     # the same labels as nothing else of length n
+
+
+FLOAT_REPS = ["strided", "reversed", "column", "readonly", "bigendian", "list", "tuple", "list-np"] + \
+    ["series:" + k for k in INDEX_KINDS]
+ENS_REPS = ["fortran", "wide-slice", "rows-strided", "reversed", "readonly", "bigendian", "nested-list",
+            "dataframe:range", "dataframe:shuffled", "dataframe:dates", "dataframe:dup"]
+INT_REPS = ["tuple", "int64", "int32", "int16", "int8", "uint8", "uint16", "bool", "object", "bigendian",
+            "strided", "reversed", "readonly"] + ["series:" + k for k in INDEX_KINDS]
+TABLE_REPS = ["tuple", "int64", "int32", "int16", "uint8", "uint16", "uint32", "uint64", "float64", "fortran",
+              "transposed-view", "slice", "readonly", "bigendian", "dataframe", "dataframe-float",
+              "dataframe-labels"]
+
+
+def strided_of(rng, a, filler):
+    """the values of `a` as every k-th element of a larger array holding `filler` elsewhere"""
+    k = rng.choice([2, 3, 7])
+    big = np.full(len(a) * k, filler, dtype=a.dtype)
+    off = rng.randrange(k)
+    big[off::k] = a
+    v = big[off::k]
+    assert len(v) == len(a)
+    return v
+
+
+def float_repr(rng, vals, kind):
+    """the float64 series `vals` held another way (same values, NaN/inf included)"""
+    import pandas as pd
+    a = np.array(vals, dtype=np.float64)
+    if kind == "strided":
+        return strided_of(rng, a, rng.choice([NAN, 1e300, -7.0]))
+    if kind == "reversed":
+        return np.ascontiguousarray(a[::-1])[::-1]
+    if kind == "column":       # a column of a C-ordered table
+        m = np.full((len(a), 3), rng.choice([NAN, -1e300, 3.0]))
+        j = rng.randrange(3)
+        m[:, j] = a
+        return m[:, j]
+    if kind == "readonly":
+        a.setflags(write=False)
+        return a
+    if kind == "bigendian":
+        return a.astype(">f8")
+    if kind == "list":
+        return [float(v) for v in a]
+    if kind == "tuple":
+        return tuple(float(v) for v in a)
+    if kind == "list-np":
+        return list(a)
+    if kind.startswith("series:"):
+        return pd.Series(a, index=make_index(rng, kind[7:], len(a)), name=rng.choice([None, "q", 0]))
+    raise KeyError(kind)
+
+
+def ens_repr(rng, rows, kind):
+    """the n x p float64 ensemble `rows` held another way"""
+    import pandas as pd
+    m = np.array(rows, dtype=np.float64)
+    n, p = m.shape
+    if kind == "fortran":
+        return np.asfortranarray(m)
+    if kind == "wide-slice":
+        w = np.full((n, p + 2), rng.choice([NAN, 1e300]))
+        w[:, 1:p + 1] = m
+        return w[:, 1:p + 1]
+    if kind == "rows-strided":
+        w = np.full((2 * n, p), rng.choice([NAN, -5.0]))
+        w[::2] = m
+        return w[::2]
+    if kind == "reversed":
+        return np.ascontiguousarray(m[::-1, ::-1])[::-1, ::-1]
+    if kind == "readonly":
+        m.setflags(write=False)
+        return m
+    if kind == "bigendian":
+        return m.astype(">f8")
+    if kind == "nested-list":
+        return [[float(v) for v in r] for r in m]
+    if kind.startswith("dataframe:"):
+        return pd.DataFrame(m, index=make_index(rng, kind[10:], n),
+                            columns=[f"m{j}" for j in range(p)])
+    raise KeyError(kind)
+
+
+def int_repr(rng, vals, kind):
+    """the integer category series `vals` held another way; None when `kind` cannot hold it"""
+    import pandas as pd
+    dt = {"int64": np.int64, "int32": np.int32, "int16": np.int16, "int8": np.int8, "uint8": np.uint8,
+          "uint16": np.uint16, "bigendian": ">i4", "object": object}
+    if kind == "tuple":
+        return tuple(vals)
+    if kind == "bool":
+        return np.array(vals, dtype=bool) if set(vals) <= {0, 1} else None
+    if kind in dt:
+        return np.array(vals, dtype=dt[kind])
+    a = np.array(vals, dtype=np.int64)
+    if kind == "strided":
+        return strided_of(rng, a, 99)
+    if kind == "reversed":
+        return np.ascontiguousarray(a[::-1])[::-1]
+    if kind == "readonly":
+        a.setflags(write=False)
+        return a
+    if kind.startswith("series:"):
+        return pd.Series(a.astype(rng.choice([np.int64, np.int32])), index=make_index(rng, kind[7:], len(a)))
+    raise KeyError(kind)
+
+
+def table_repr(rng, tab, kind):
+    """the 2x2 table of counts `tab` held another way; None when `kind` cannot hold the counts"""
+    import pandas as pd
+    dt = {"int64": np.int64, "int32": np.int32, "int16": np.int16, "uint8": np.uint8, "uint16": np.uint16,
+          "uint32": np.uint32, "uint64": np.uint64, "bigendian": ">i8"}
+    big = max(max(r) for r in tab)
+    if kind == "tuple":
+        return tuple(tuple(r) for r in tab)
+    if kind in dt:
+        if big > np.iinfo(np.dtype(dt[kind])).max:
+            return None
+        return np.array(tab, dtype=dt[kind])
+    if kind == "float64":
+        return np.array(tab, dtype=np.float64) if big < 2 ** 52 else None
+    a = np.array(tab, dtype=np.int64)
+    if kind == "fortran":
+        return np.asfortranarray(a)
+    if kind == "transposed-view":
+        return np.ascontiguousarray(a.T).T
+    if kind == "slice":
+        w = np.full((4, 6), -3, dtype=np.int64)
+        w[1::2, 2::3] = a
+        return w[1::2, 2::3]
+    if kind == "readonly":
+        a.setflags(write=False)
+        return a
+    if kind == "dataframe":
+        return pd.DataFrame(a)
+    if kind == "dataframe-float":      # what confusion_matrix returns after padding a category
+        return pd.DataFrame(a.astype(np.float64))
+    if kind == "dataframe-labels":
+        return pd.DataFrame(a, index=pd.Index([False, True], name="obs"), columns=["no", "yes"])
+    raise KeyError(kind)
+
+
+def same_bits(a, vals):
+    """array `a` still holds exactly the values `vals` (NaN = NaN)"""
+    b = np.asarray(vals, dtype=np.float64).reshape(np.shape(a))
+    return bool(np.all((a == b) | (np.isnan(a) & np.isnan(b))))
 
 
 # ----------------------------------------------------------------------------
@@ -631,6 +809,257 @@ def run(ctx):
                  f"kge = {k0} but after scaling both series by {c} it is {k1}",
                  dict(base, call="kge", tsim=s, c=c, impl=k0, impl_scaled=k1))
 
+    # ------------------------------------------------------------------
+    # stored representations and object histories of the continuous scores
+    SCORE_CALLS = [("bias/" + t, metrics.bias, (t,), {"type": t}) for t in BTYPES] + \
+        [("nse", metrics.nse, (), {}), ("kge", metrics.kge, (), {})] + \
+        [(f"corr/{st}/{ty}", metrics.corr, (st, ty), {"stat": st, "type": ty})
+         for st in ("mean", "median") for ty in ("Pearson", "Spearman")]
+
+    def call_any(fn, *a, **k):
+        """as `call`, any exception reported by its class name"""
+        try:
+            with np.errstate(all="ignore"):
+                return ("ok", float(fn(*a, **k)))
+        except Exception as e:      # noqa: BLE001
+            return ("err", type(e).__name__)
+
+    def pairs_scored(tobs, tsim, excl):
+        if len(tobs) == len(tsim) and excl:
+            keep = [not (math.isnan(a) or math.isnan(b)) for a, b in zip(tobs, tsim)]
+            return [a for a, k in zip(tobs, keep) if k], [b for b, k in zip(tsim, keep) if k]
+        return tobs, tsim
+
+    def rep_tolerance(tobs, tsim, excl):
+        """tolerance for two runs of the implementation on the same values held differently
+        (bit-identical today; a harmless change of the summation order stays inside), None when
+        the series is so ill-conditioned that only the outcome class is compared"""
+        fo, fs = pairs_scored(tobs, tsim, excl)
+        if len(fo) != len(fs) or len(fo) < 2 or not all(math.isfinite(v) for v in fo + fs):
+            return 1e-9      # error / NaN / infinite outcomes: nothing is rounded
+        big = max(abs(v) for v in fo)
+        sd = math.sqrt(float(x_ss(fo, x_mean(fo)) / len(fo)))
+        if sd == 0 or big > 1e100:
+            return None
+        tol = 1e-9 + 1e-13 * len(fo) * (cond_sum(fo) + cond_sum(fs) + (big / sd) ** 2)
+        return tol if math.isfinite(tol) and tol < 1e-4 else None
+
+    def same_res(a, b, tol):
+        if tol is None:
+            return a[0] == b[0]
+        if a[0] != b[0]:
+            return False
+        if a[0] == "err":
+            return a[1] == b[1]
+        if math.isnan(a[1]) or math.isnan(b[1]):
+            return math.isnan(a[1]) and math.isnan(b[1])
+        return a[1] == b[1] or close(a[1], b[1], tol)
+
+    def defn(key, obs, sim, spec, excl):
+        """(textbook definition on the transformed series, tolerance) of the score `key`, or
+        None outside the property's quantifier - the clauses of do_series, for 1-D simulations"""
+        if len(obs) != len(sim):
+            return None
+        part = key.split("/")
+        if part[0] == "corr":      # rows without an observation or without any member are not scored
+            rows = [(a, b) for a, b in zip(obs, sim) if not (math.isnan(a) or math.isnan(b))]
+            obs, sim = [a for a, _ in rows], [b for _, b in rows]
+            if not obs:
+                return None
+        tobs = [float(v) for v in forward(spec, obs)]
+        tsim = [float(v) for v in forward(spec, sim)]
+        fo, fs = pairs_scored(tobs, tsim, excl)
+        if not (nondegenerate(fo) and all(math.isfinite(v) for v in fs)
+                and max([abs(v) for v in fs] + [0]) < 1e100):
+            return None
+        n = len(fo)
+        if part[0] == "bias":
+            want = x_bias(fo, fs, part[1])
+            if want is None:
+                return None
+            co, cs = cond_sum(fo), cond_sum(fs)
+            if part[1] == "normalised":
+                cs = max(cs, cond_sum([a + b for a, b in zip(fo, fs)]))
+            if part[1] == "log":
+                cs = cs + co
+            tolb = 1e-9 + 1e-14 * n * (co + cs)
+            return (want, tolb) if math.isfinite(cs) and tolb < 1e-4 else None
+        if part[0] == "nse":
+            return x_nse(fo, fs), 1e-9
+        if not spread_ok(fs):
+            return None
+        if part[0] == "kge":
+            want = x_kge(fo, fs)
+            tolk = 1e-9 + 1e-14 * n * (cond_sum(fo) + cond_sum(fs)) * (1 + abs(float(x_mean(fs) / x_mean(fo))))
+            return (want, tolk) if want is not None and tolk < 1e-4 else None
+        want = x_pearson(fo, fs) if part[2] == "Pearson" else x_pearson(x_midrank(fo), x_midrank(fs))
+        return (want, 2e-9) if want is not None else None
+
+    def gen_ens(sim, p):
+        ens = [[v] if p == 1 else
+               [v * (1 + 0.2 * rng.gauss(0, 1)) if math.isfinite(v) else v for _ in range(p)]
+               for v in sim]
+        for r in ens:
+            if p > 1 and rng.random() < 0.15:
+                for j in range(p):
+                    if rng.random() < 0.6:
+                        r[j] = NAN
+        return ens
+
+    def do_repr(obs, sim, spec, excl, label):
+        """the same float64 values held in another container / memory layout / byte order give
+        the scores of a fresh C-contiguous native float64 copy (which do_series compares with
+        the definitions)"""
+        p = rng.choice([0, 0, 1, 3])
+        ens = gen_ens(sim, p) if p else None
+        tol = rep_tolerance([float(v) for v in forward(spec, obs)],
+                            [float(v) for v in forward(spec, sim)], excl)
+        oa, sa = np.array(obs, dtype=np.float64), np.array(sim, dtype=np.float64)
+        ea = sa if ens is None else np.array(ens, dtype=np.float64)
+        t0 = make_trans(spec)
+        canon = {key: call_any(fn, oa, ea if key.startswith("corr") else sa, t0, excl, *args)
+                 for key, fn, args, _ in SCORE_CALLS}
+        for _ in range(2):
+            ko, ks = rng.choice(FLOAT_REPS), rng.choice(FLOAT_REPS)
+            ke = rng.choice(ENS_REPS) if ens is not None else rng.choice(FLOAT_REPS)
+            ro, rs = float_repr(rng, obs, ko), float_repr(rng, sim, ks)
+            re_ = float_repr(rng, sim, ke) if ens is None else ens_repr(rng, ens, ke)
+            t1 = make_trans(spec)
+            ctx.count(("repr", ko.split(":")[0], ks.split(":")[0], ke.split(":")[0], p))
+            for key, fn, args, _ in SCORE_CALLS:
+                second = re_ if key.startswith("corr") else rs
+                got = call_any(fn, ro, second, t1, excl, *args)
+                orc["score(values held in another container / layout) = score(fresh float64 copy)"] += 1
+                if not same_res(got, canon[key], tol):
+                    fail(None, f"C04/{key.split('/')[0]}/depends-on-stored-representation",
+                         f"{key}(trans={spec}, excludenull={excl}) = {got} with obs held as {ko} and the "
+                         f"simulation as {ke if key.startswith('corr') else ks}, but {canon[key]} on fresh "
+                         f"C-contiguous float64 copies of the same values",
+                         {"call": key, "obs": obs, "sim": sim, "ens": ens, "transform": spec,
+                          "excludenull": excl, "obs_held_as": ko,
+                          "sim_held_as": ke if key.startswith("corr") else ks,
+                          "impl": got, "impl_on_fresh_copies": canon[key],
+                          "input_class": "stored representation of the series"})
+
+    def do_session(sid, nsteps):
+        """one pair of caller-owned arrays and one transform object through a sequence of
+        operations: contents rewritten in place, transform parameters changed, scores called in
+        any order / twice / on the same object / with defaulted arguments.  Every call must
+        return the definition on what the objects hold AT THAT CALL, and what fresh objects
+        holding the same values return."""
+        n = rng.choice([4, 7, 8, 9, 16, 33, 128, 129])
+        name = rng.choice(TRANSFORMS)
+        spec = gen_trans(rng, name)
+        T = make_trans(spec)
+        pnames = [str(v) for v in T.params.names]
+        O, S = np.zeros(n), np.zeros(n)
+        cur = {"obs": None, "sim": None, "spec": (name, [float(v) for v in T.params.values])}
+        history, done, last = [], [], None
+
+        def write(which, vals):
+            (O if which == "obs" else S)[...] = vals
+            cur[which] = [float(v) for v in vals]
+
+        def fresh_pair():
+            o, s, _ = gen_series(rng, n, n=n)
+            return o, s
+
+        o, s = fresh_pair()
+        write("obs", o)
+        write("sim", s)
+        history.append(("write-both", None))
+        for step in range(nsteps):
+            kind = rng.choice(["call"] * 6 + ["write-obs", "write-sim", "write-both", "scale-obs",
+                                              "set-param", "set-param", "same-object", "repeat", "views"])
+            if kind == "set-param" and not pnames:
+                kind = "call"
+            if kind == "repeat" and last is None:
+                kind = "call"
+            if kind.startswith("write"):
+                o, s = fresh_pair()
+                if kind != "write-sim":
+                    write("obs", o)
+                if kind != "write-obs":
+                    write("sim", s)
+                history.append((kind, None))
+                continue
+            if kind == "scale-obs":      # the caller's own in-place arithmetic
+                c = rng.choice([0.5, 2.0, 10.0])
+                np.multiply(O, c, out=O)
+                cur["obs"] = [float(v) for v in O]
+                history.append((kind, c))
+                continue
+            if kind == "set-param":
+                new = gen_trans(rng, name)[1]
+                style = rng.choice(["values", "attribute", "item"])
+                if style == "values":
+                    T.params.values = list(new)
+                else:
+                    for pn, v in zip(pnames, new):
+                        if style == "attribute":
+                            setattr(T, pn, v)
+                        else:
+                            T[pn] = v
+                cur["spec"] = (name, [float(v) for v in T.params.values])
+                history.append((kind, style, list(new)))
+                continue
+            # ---- a call
+            if kind == "repeat":
+                key, fn, args, kw, excl, style, form = last
+            else:
+                key, fn, args, kw = rng.choice(SCORE_CALLS)
+                excl = rng.random() < 0.5
+                style = rng.choice(["positional", "keyword"] + (["default-trans"] if name == "Identity" else []))
+                form = {"call": "pair", "same-object": "same-object", "views": "views"}[kind]
+            last = (key, fn, args, kw, excl, style, form)
+            if form == "same-object":
+                a1, a2, vo, vs = O, O, cur["obs"], cur["obs"]
+            elif form == "views":      # the kept memory seen through reversed views
+                a1, a2, vo, vs = O[::-1], S[::-1], cur["obs"][::-1], cur["sim"][::-1]
+            else:
+                a1, a2, vo, vs = O, S, cur["obs"], cur["sim"]
+            cm.mark({"call": key + " (session)", "history": history, "obs": vo, "sim": vs, "transform": cur["spec"]})
+            if style == "positional":
+                res = call_any(fn, a1, a2, T, excl, *args)
+            elif style == "keyword":
+                res = call_any(fn, a1, a2, trans=T, excludenull=excl, **kw)
+            else:
+                res = call_any(fn, a1, a2, excludenull=excl, **kw)
+            history.append((kind, key, excl, style))
+            rec = {"call": key, "obs": list(vo), "sim": list(vs), "transform": cur["spec"], "excludenull": excl,
+                   "arguments": form, "style": style, "history": list(history), "impl": res,
+                   "input_class": "object history: caller-owned arrays and one transform object reused"}
+            done.append((fn, args, rec))
+            ctx.count(("session", key, kind, style, len(done) > 1))
+            d = defn(key, rec["obs"], rec["sim"], cur["spec"], excl)
+            if d is not None:
+                orc["object history: score = definition on the current contents"] += 1
+                if res[0] != "ok" or not close(res[1], d[0], d[1]):
+                    touched = [w for w, arr in (("obs", O), ("sim", S)) if not same_bits(arr, cur[w])]
+                    fail(None, f"C04/{key.split('/')[0]}/object-history-not-the-definition",
+                         f"{key}(trans={cur['spec']}, excludenull={excl}, {form}, {style}) = {res} at step "
+                         f"{len(history)} of a sequence on the same array / transform objects (last steps: "
+                         f"{history[-4:]}); the definition on the values held at that call gives {d[0]!r}"
+                         + (f"; the caller's {' and '.join(touched)} array no longer holds what the caller "
+                            "wrote: it was modified by a call" if touched else ""),
+                         dict(rec, definition=d[0]))
+                    return
+        # every recorded call again on fresh objects holding the same values
+        for fn, args, rec in done:
+            key, spec_k, excl = rec["call"], rec["transform"], rec["excludenull"]
+            tol = rep_tolerance([float(v) for v in forward(spec_k, rec["obs"])],
+                                [float(v) for v in forward(spec_k, rec["sim"])], excl)
+            ref = call_any(fn, np.array(rec["obs"], dtype=np.float64), np.array(rec["sim"], dtype=np.float64),
+                           make_trans(spec_k), excl, *args)
+            orc["object history: score = score of fresh objects with the same values"] += 1
+            if not same_res(rec["impl"], ref, tol):
+                fail(None, f"C04/{key.split('/')[0]}/object-history-differs-from-fresh-objects",
+                     f"{key}(trans={spec_k}, excludenull={excl}) returned {rec['impl']} in a sequence of "
+                     f"operations on the same objects (last steps: {rec['history'][-4:]}), fresh arrays and a "
+                     f"fresh transform holding the same values give {ref}",
+                     dict(rec, impl_on_fresh_objects=ref))
+                return
+
     def fl_list(l):
         return [float(v) if v is not None else NAN for v in l]
 
@@ -663,6 +1092,10 @@ def run(ctx):
         do_series(obs, sim, spec, excl, label)
         if it % 2 == 0:
             do_laws([v for v in obs if math.isfinite(v)], spec)
+        else:
+            do_repr(obs, sim, spec, excl, label)
+    for sid in range(ctx.scale(40, 300)):
+        do_session(sid, ctx.scale(14, 30))
     for it in range(ctx.scale(40, 200)):
         obs, sim, label = gen_special(rng)
         spec = ("Identity", []) if rng.random() < 0.7 else gen_trans(rng)
